@@ -90,12 +90,16 @@ class Case:
                 own = [i for i, x in enumerate(layout) if x.get("func") == f]
                 if rnd.random() < 0.6:
                     first, last = own[0], own[-1]
-                    self.cfi.setdefault(first, {}).setdefault(0, []).extend([("S", did), ("O", did + 1)])
+                    self.cfi.setdefault(first, {}).setdefault(0, []).extend([("S", did), ("D", did + 1)])
                     did += 2
+                    depth = 0
                     for i in own:
                         for b in self.bounds(i)[1:]:
                             if rnd.random() < 0.3:
-                                kind = rnd.choice(("O", "O", "M", "R"))
+                                kind = rnd.choice(("O", "A", "A", "M", "R"))
+                                if kind == "R" and depth == 0:
+                                    kind = "O"          # the directives of the input evaluate cleanly
+                                depth += {"M": 1, "R": -1}.get(kind, 0)
                                 self.cfi.setdefault(i, {}).setdefault(b, []).append((kind, did))
                                 did += 1
                     self.cfi.setdefault(last, {}).setdefault(self.size(last), []).append(("E", did))
@@ -181,8 +185,14 @@ class Case:
 
 
 TABLES = ("comments", "padding", "symbolicExpressionSizes")
-DNAME = {"S": ".cfi_startproc", "E": ".cfi_endproc", "M": ".cfi_remember_state", "R": ".cfi_restore_state", "O": ".cfi_undefined"}
-DCLASS = {v: k for k, v in DNAME.items()}
+DNAME = {"S": ".cfi_startproc", "E": ".cfi_endproc", "M": ".cfi_remember_state", "R": ".cfi_restore_state", "O": ".cfi_undefined",
+         "D": ".cfi_def_cfa", "A": ".cfi_def_cfa_offset"}
+DCLASS = {".cfi_startproc": "S", ".cfi_endproc": "E", ".cfi_remember_state": "M", ".cfi_restore_state": "R"}      # everything else: "O"
+
+
+def doperands(c, did):
+    """operands of a generated directive; the last operand is the directive's identity in the dumps"""
+    return [7, did] if c == "D" else ([] if c in "SEMR" else [did])
 
 
 class Built:
@@ -272,7 +282,7 @@ def build(case):
         m.aux_data["alignment"].data[gbs[i]] = a
     for i, dm in case.cfi.items():
         for d, ds in dm.items():
-            m.aux_data["cfiDirectives"].data[gtirb.Offset(gbs[i], d)] = [(DNAME[c], [did], NULL_UUID) for c, did in ds]
+            m.aux_data["cfiDirectives"].data[gtirb.Offset(gbs[i], d)] = [(DNAME[c], doperands(c, did) if c not in 'SEMR' else [did], NULL_UUID) for c, did in ds]
     if case.entry is not None:
         m.entry_point = gbs[case.entry]
     B.ir, B.m, B.bi, B.gbs, B.syms, B.extra, B.fobjs, B.exprs = ir, m, bi, gbs, syms, extra, fobjs, exprs
@@ -348,7 +358,7 @@ def canonical_dump(m, ids, fids):
             lines.append(f"T{t} {key} {off.displacement} {tabval(t, v)}")
     for off, ds in m.aux_data["cfiDirectives"].data.items():
         if ds:
-            lines.append(f"C {block_name(off.element_id, ids)} {off.displacement} " + ",".join(f"{DCLASS.get(d[0], 'O')}{d[1][0] if d[1] else 0}" for d in ds))
+            lines.append(f"C {block_name(off.element_id, ids)} {off.displacement} " + ",".join(f"{DCLASS.get(d[0], 'O')}{d[1][-1] if d[1] else 0}" for d in ds))
     for i, name in enumerate(("types", "encodings", "profile", "sccs")):
         if name in m.aux_data:
             for b in m.aux_data[name].data:
@@ -369,7 +379,7 @@ def dump_cfi(items, ids, space="node"):
     for b, dm in items:
         parts.append(f"{ids.get(b, space)} {len(dm)}")
         for d, ds in dm.items():
-            parts.append(f"{d} {len(ds)} " + " ".join(f"{DCLASS.get(x[0], 'O')} {x[1][0] if x[1] else 0}" for x in ds))
+            parts.append(f"{d} {len(ds)} " + " ".join(f"{DCLASS.get(x[0], 'O')} {x[1][-1] if x[1] else 0}" for x in ds))
     return " ".join(parts)
 
 
